@@ -181,6 +181,7 @@ pub struct World {
     h: [u32; 3],                    // handles to the ORIGINAL box per thread (ghost = who holds what)
     copies: [u32; 3],               // handles to make_mut copies (not tracked further)
     gone: bool,                     // payload destroyed or moved out
+    expect: u64,                    // contents every holder must observe
     pub failure: Option<String>,
 }
 
@@ -188,7 +189,7 @@ impl World {
     pub fn new() -> World {
         DROPS.store(0, Ordering::SeqCst);
         let w = vec![spawn_worker(), spawn_worker(), spawn_worker()];
-        let mut me = World { w, ptr: None, h: [0; 3], copies: [0; 3], gone: false, failure: None };
+        let mut me = World { w, ptr: None, h: [0; 3], copies: [0; 3], gone: false, expect: 7, failure: None };
         me.w[0].call(Cmd::New);
         // fetch the pointer: give the handle to ourselves and back
         let (tx, rx) = channel();
@@ -272,6 +273,7 @@ impl World {
                     if before_total != 1 {
                         self.failure = Some(format!("in-place mutation by thread {} while {} references exist", t, before_total));
                     }
+                    self.expect = 9;
                 } else {
                     self.h[t - 1] -= 1;
                     self.copies[t - 1] += 1;
@@ -285,7 +287,7 @@ impl World {
                     if before_total != 1 {
                         self.failure = Some(format!("unwrapped by thread {} while {} references exist", t, before_total));
                     }
-                    if r.value != 7 {
+                    if r.value != self.expect {
                         self.failure = Some(format!("unwrapped payload corrupted: {:#x}", r.value));
                     }
                 }
@@ -308,7 +310,7 @@ impl World {
             for t in 0..3 {
                 if self.h[t] > 0 && self.copies[t] == 0 {
                     let v = self.w[t].call(Cmd::Peek).value;
-                    if v != 7 {
+                    if v != self.expect {
                         self.failure = Some(format!("thread {} reads corrupted contents {:#x}", t + 1, v));
                     }
                 }
@@ -376,7 +378,7 @@ fn reach(target: &Obs, max_depth: usize, cap: u32) -> Option<Vec<Op>> {
         let fail = w.failure.is_some();
         let mut next: Vec<Op> = vec![];
         if let (Some(o), false) = (o, fail) {
-            if o == *target {
+            if matches(&o, target) {
                 w.finish();
                 return Some(hist);
             }
@@ -437,6 +439,15 @@ fn continue_to_failure(hist: &[Op], depth: usize) -> Option<(Vec<Op>, String)> {
         }
     }
     None
+}
+
+/// The biased counter of a merged box without a queue entry is dead state: any value matches.
+fn matches(o: &Obs, t: &Obs) -> bool {
+    let mut o2 = *o;
+    if t.merged && !t.in_queue {
+        o2.b = t.b;
+    }
+    o2 == *t
 }
 
 fn parse_target(s: &str) -> (Obs, Op) {
